@@ -69,6 +69,14 @@ def series_transformers():
         o.fit(pd.Series([1.0, 2.0, 3.0, 4.0]))
         return o.set_params(passthrough=True)
     add("optpass_reconfigured", reconfigured, inverse=True, positive=True)
+
+    def reconfigured_nested():
+        # fitted with one seasonal period, re-configured through a nested parameter (fit follows)
+        import pandas as pd
+        o = OptionalPassthrough(Deseasonalizer(sp=3), passthrough=False)
+        o.fit(pd.Series([5.0, 7.0, 6.0, 8.0, 10.0, 9.0, 11.0, 13.0, 12.0]))
+        return o.set_params(transformer__sp=4)
+    add("optpass_deseason_reconfigured", reconfigured_nested, inverse=True)
     add("adapt_standard_frame", lambda: TabularToSeriesAdaptor(StandardScaler()), inverse=True)
     L[-1]["frame"] = True
     add("adapt_minmax_frame", lambda: TabularToSeriesAdaptor(MinMaxScaler()), inverse=True)
